@@ -383,6 +383,11 @@ bool do_selftest() {
     if (ref::crc32(c, 9, 0xffffffffu) != 0xCBF43926u) selftest_fail("CRC-32 check value");
     const uint8_t r[] = {0x00, 0x01, 0xf2, 0x03, 0xf4, 0xf5, 0xf6, 0xf7};
     if (ref::sum16(r, 8) != (uint16_t)~0xddf2) selftest_fail("RFC 1071 checksum example");
+    {   // 65538 words 0xffff: the plain sum needs 33 bits; any non-empty sum of 0xffff words folds to 0xffff
+      std::vector<uint8_t> ff(131076, 0xff);
+      if (ref::sum16(ff.data(), ff.size()) != 0x0000 || ref::sum16(ff.data(), ff.size() - 1) != 0x00ff) selftest_fail("RFC 1071 checksum of 131076 x 0xff");
+      if (ref::sum8(ff.data(), ff.size()) != 0x00) selftest_fail("8-bit checksum of 131076 x 0xff");
+    }
     const uint8_t e[] = {0xff, 0x01, 0x02};   // 0xff+1 = 0x100 -> 0x01, +2 = 3
     if (ref::sum8(e, 3) != (uint8_t)~3) selftest_fail("8-bit one's-complement sum");
   }
@@ -1264,10 +1269,41 @@ VERIF_REGISTER(&def);
 // =================================================================================================
 namespace crc {
 using namespace tbox::util;
+enum { BIG = 2 };
+
+// Large inputs (128 KiB .. 2 MiB): the sum of the big-endian 16-bit words (and of the octets) leaves 32 bits only here,
+// e.g. all-0xff from 131076 bytes, high-valued bytes from ~170 KiB, uniform bytes from ~256 KiB, ASCII from ~512 KiB.
+// big <sizemode> <delta> <pattern> <seed>
+const size_t kBigBase[] = {131072, 131076, 131080, (size_t)1 << 18, (size_t)1 << 19, (size_t)1 << 20, (size_t)1 << 21};
+const char *kBigPattern[] = {"large_all_0xff", "large_0xff_heavy", "large_high_bytes_0x80_0xff", "large_uniform_bytes", "large_ascii_text", "large_0xfffe_words"};
+std::vector<uint8_t> big_data(const Op &op, int &pattern) {
+  int mode = (int)op.in(0, 0, 9);
+  int64_t delta = op.in(1, -4, 8);
+  pattern = (int)op.in(2, 0, 5);
+  uint32_t seed = (uint32_t)op.in(3, 0, 1 << 20);
+  size_t n;
+  if (mode <= 6) n = (size_t)((int64_t)kBigBase[mode] + delta);
+  else n = 131072 + (size_t)(((uint64_t)seed * 2654435761u + (uint64_t)mode * 40503u) % ((2u << 20) - 131072 + 1));   // anywhere in 128 KiB .. 2 MiB
+  if (n > (2u << 20) + 8) n = (2u << 20) + 8;
+  std::vector<uint8_t> v(n);
+  uint32_t g = seed * 2654435761u + 12345u;
+  auto next = [&]() -> uint32_t { g = g * 1664525u + 1013904223u; return g >> 8; };
+  switch (pattern) {
+    case 0: std::fill(v.begin(), v.end(), 0xff); break;
+    case 1: std::fill(v.begin(), v.end(), 0xff); for (size_t k = 0; k < n / 64 + 1; ++k) v[next() % n] = (uint8_t)next(); break;
+    case 2: for (auto &b : v) b = (uint8_t)(0x80 | (next() & 0x7f)); break;
+    case 3: for (auto &b : v) b = (uint8_t)next(); break;
+    case 4: for (auto &b : v) b = (uint8_t)(0x20 + next() % 95); break;
+    default: for (size_t i = 0; i < n; ++i) v[i] = (i & 1) ? 0xfe : 0xff; break;
+  }
+  return v;
+}
 
 std::string run(const Scenario &s, CaseInfo &info) {
   selftest();
   CfgData cd = split(s);
+  const Op *big = nullptr;
+  for (auto &op : s.ops) if (op.code == BIG) { big = &op; break; }
   bool dflt = cd.cfg.in(0, 0, 3) == 0;       // use the default seed arguments
   uint16_t seed16 = (uint16_t)(cd.cfg.in(1, 0, 255) | cd.cfg.in(2, 0, 255) << 8);
   uint32_t seed32 = (uint32_t)(cd.cfg.in(3, 0, 255) | cd.cfg.in(4, 0, 255) << 8 | cd.cfg.in(5, 0, 255) << 16 | (uint64_t)cd.cfg.in(6, 0, 255) << 24);
@@ -1276,6 +1312,8 @@ std::string run(const Scenario &s, CaseInfo &info) {
   std::vector<uint8_t> data = cd.data;
   size_t more = (size_t)cd.cfg.in(8, 0, 60) * 97;
   if (more) { auto x = lcg_bytes(more, (uint32_t)cd.cfg.in(9, 0, 255)); data.insert(data.end(), x.begin(), x.end()); }
+  int pattern = -1;
+  if (big) data = big_data(*big, pattern);      // a `big` op replaces the message
   size_t n = data.size();
   Blk in(data);
   if (dflt) { seed16 = 0xffff; seed32 = 0xffffffffu; }
@@ -1293,8 +1331,10 @@ std::string run(const Scenario &s, CaseInfo &info) {
   if (n) {
     size_t off = cut % n;
     Blk part(data.data() + off, n - off);
-    if (CalcCrc16(part.u8(), part.n, seed16) != ref::crc16(data.data() + off, n - off, seed16)) return fmt("CalcCrc16 differs from the reference on the suffix at offset %zu", off);
-    if (CalcCrc32(part.u8(), part.n, seed32) != ref::crc32(data.data() + off, n - off, seed32)) return fmt("CalcCrc32 differs from the reference on the suffix at offset %zu", off);
+    if (!big) {   // (the bit-serial CRC references are the expensive part of a large case: whole message only there)
+      if (CalcCrc16(part.u8(), part.n, seed16) != ref::crc16(data.data() + off, n - off, seed16)) return fmt("CalcCrc16 differs from the reference on the suffix at offset %zu", off);
+      if (CalcCrc32(part.u8(), part.n, seed32) != ref::crc32(data.data() + off, n - off, seed32)) return fmt("CalcCrc32 differs from the reference on the suffix at offset %zu", off);
+    }
     if (CalcCheckSum16(part.u8(), part.n) != ref::sum16(data.data() + off, n - off)) return fmt("CalcCheckSum16 differs from the reference on the suffix at offset %zu", off);
     if (CalcCheckSum8(part.u8(), part.n) != ref::sum8(data.data() + off, n - off)) return fmt("CalcCheckSum8 differs from the reference on the suffix at offset %zu", off);
   }
@@ -1303,15 +1343,24 @@ std::string run(const Scenario &s, CaseInfo &info) {
   info.cls_if(n & 1, "odd_length");
   uint64_t sum = 0; for (auto b : data) sum += b;
   info.cls_if(sum > 0xffff, "sum_carries_out_of_16_bits");
+  if (big) {
+    info.cls("large_input_128KiB_to_2MiB");
+    info.cls(kBigPattern[pattern]);
+    uint64_t words = 0;
+    for (size_t i = 0; i + 1 < n; i += 2) words += (uint64_t)data[i] << 8 | data[i + 1];
+    if (n & 1) words += (uint64_t)data[n - 1] << 8;
+    info.cls_if(words >> 32, "large_sum_of_16bit_words_needs_more_than_32_bits");
+    info.cls_if(sum >> 16 > 0xff, "large_sum_of_octets_needs_more_than_24_bits");
+  }
   info.nontrivial = n >= 2;
   return "";
 }
 
 SubDef def = [] {
   SubDef d; d.name = "crc_checksum";
-  d.op_names = {"cfg", "data"};
-  d.op_arity = {10, 8};
-  d.nt_rule = "message of at least 2 bytes (all four functions compared with bit-serial references, whole message and a suffix)";
+  d.op_names = {"cfg", "data", "big"};
+  d.op_arity = {10, 8, 4};
+  d.nt_rule = "message of at least 2 bytes (all four functions compared with bit-serial / 64-bit-accumulator references, whole message and a suffix); about 0.5 % of the rapidcheck cases are 128 KiB .. 2 MiB messages (classes large_*), most of them with a word sum >= 2^32";
   d.run = run;
   d.decode = [](const uint8_t *p, size_t n) { return cfg_data_decode(p, n, 10); };
 #ifndef VERIF_ENGINE_FUZZ
@@ -1319,7 +1368,15 @@ SubDef def = [] {
     auto any = byteGen({0, 255, 0xff, 0xff, 0xfe, 1}, 2, 6, 2);
     auto b = range(0, 255);
     auto cfg = mkop(CFG, {range(0, 3), b, b, b, b, b, b, b, rc::gen::weightedOneOf<int64_t>({{3, rc::gen::just<int64_t>(0)}, {1, range(1, 60)}}), b});
-    return scenarioOf(fixedOps({cfg}), fixedOps({opOfBytes(DATA, any)}));
+    // large messages: sizes around 131072..131080 and 2^18 (cheap) are favoured over 2^19..2^21 and arbitrary sizes;
+    // patterns with high-valued bytes (word sum wraps 32 bits early) over uniform bytes and text
+    auto bigop = mkop(BIG, {rc::gen::weightedOneOf<int64_t>({{8, range(0, 2)}, {5, rc::gen::just<int64_t>(3)}, {3, rc::gen::just<int64_t>(4)}, {2, range(5, 6)}, {3, range(7, 9)}}),
+                            range(-4, 8),
+                            rc::gen::weightedOneOf<int64_t>({{5, rc::gen::just<int64_t>(0)}, {3, rc::gen::just<int64_t>(1)}, {3, rc::gen::just<int64_t>(2)}, {3, rc::gen::just<int64_t>(3)}, {1, rc::gen::just<int64_t>(4)}, {2, rc::gen::just<int64_t>(5)}}),
+                            range(0, 1 << 20)});
+    return rc::gen::weightedOneOf<Scenario>({
+      {199, scenarioOf(fixedOps({cfg}), fixedOps({opOfBytes(DATA, any)}))},
+      {1, scenarioOf(fixedOps({cfg}), fixedOps({bigop}))}});
   };
 #endif
   return d;
